@@ -11,62 +11,26 @@ Notation val := (@value R _ sqrtf 0).
 Notation cj := (@cconj R _).
 Notation cval := (cval sqrtf).
 
-(* the flag exclusion is preserved by convex_conj *)
-Lemma lin_ok_conj e : forall w e', lin_ok e -> cj w e = Ok e' -> lin_ok e'.
-Proof.
-  fxind e; intros w e' Hok Hc; cbn [cconj lin_ok] in *;
-    try (inversion Hc; subst; cbn [lin_ok]; auto; fail).
-  - (* FL2Sq *) inversion Hc; subst. apply lin_ok_rmul. exact I.
-  - (* FQuadS *) destruct a as [a|], b as [b|]; try discriminate.
-    + destruct (a =? nzero)%num; inversion Hc; subst; exact I.
-    + destruct (a =? nzero)%num; inversion Hc; subst; exact I.
-    + inversion Hc; subst. exact I.
-  - (* FLeft *) destruct (s <=? nzero)%num; [discriminate|].
-    destruct (cj w f) as [f'|] eqn:E; cbn [rbind] in Hc; [|discriminate]. inversion Hc; subst.
-    apply lin_ok_mul_right, lin_ok_rmul. eauto.
-  - (* FRight *) destruct (cj w f) as [f'|] eqn:E; cbn [rbind] in Hc; [|discriminate].
-    destruct (s =? nzero)%num; [discriminate|]. inversion Hc; subst. apply lin_ok_mul_right. eauto.
-  - (* FRightVec *) destruct (cj w f) as [f'|] eqn:E; cbn [rbind] in Hc; [|discriminate].
-    inversion Hc; subst. cbn [lin_ok]. eauto.
-  - (* FScalarSum *) destruct (cj w f) as [f'|] eqn:E; cbn [rbind] in Hc; [|discriminate].
-    inversion Hc; subst. cbn [lin_ok]. eauto.
-  - (* FTransl *) destruct (cj w f) as [f'|] eqn:E; cbn [rbind] in Hc; [|discriminate].
-    inversion Hc; subst. cbn [lin_ok]. split; [eauto | intros; reflexivity].
-  - (* FQuadPert *) destruct Hok as [O1 O2]. destruct (a =? nzero)%num.
-    + destruct (cj w f) as [f'|] eqn:E; cbn [rbind] in Hc; [|discriminate].
-      destruct (c =? nzero)%num; inversion Hc; subst; cbn [lin_ok]; apply lin_ok_mkTransl; eauto.
-    + inversion Hc; subst. cbn [lin_ok]. auto.
-  - (* FInfConv *) destruct Hok as [O1 O2].
-    destruct (cj w f) as [f'|] eqn:E1; cbn [rbind] in Hc; [|discriminate].
-    destruct (cj w g) as [g'|] eqn:E2; cbn [rbind] in Hc; [|discriminate].
-    inversion Hc; subst. cbn [lin_ok]. split; eauto.
-  - (* FBreg *) eauto.
-  - (* FSep2 *) destruct Hok as [O1 O2].
-    destruct (cj (firstn k w) f) as [f'|] eqn:E1; cbn [rbind] in Hc; [|discriminate].
-    destruct (cj (skipn k w) g) as [g'|] eqn:E2; cbn [rbind] in Hc; [|discriminate].
-    inversion Hc; subst. cbn [lin_ok]. split; eauto.
-Qed.
-
 (* ---- the rules ---- *)
 (* (s f)~(y) = s f~(y / s) *)
-Lemma cval_FLeft s f w y : 0 < s -> lin_ok f ->
+Lemma cval_FLeft s f w y : 0 < s ->
   cval w (FLeft s f) y = (v <- cval w f (vscal (1 / s) y) ;; Ok (escal s v)).
 Proof.
-  intros Hs Hok. unfold Rules.cval. cbn [cconj]. numR. rewrite (Rleb_false s 0) by lra.
+  intros Hs. unfold Rules.cval. cbn [cconj]. numR. rewrite (Rleb_false s 0) by lra.
   destruct (cj w f) as [f'|] eqn:E; cbn [rbind]; [|reflexivity].
   unfold rmul. numR. rewrite (Reqb_false s 0) by lra.
-  rewrite val_mul_right by (apply lin_ok_mkLeft; eapply lin_ok_conj; eauto).
+  rewrite val_mul_right.
   apply val_mkLeft. assumption.
 Qed.
 
 (* (f(s .))~(y) = f~(y / s) *)
-Lemma cval_FRight s f w y : s <> 0 -> lin_ok f ->
+Lemma cval_FRight s f w y : s <> 0 ->
   cval w (FRight s f) y = cval w f (vscal (1 / s) y).
 Proof.
-  intros Hs Hok. unfold Rules.cval. cbn [cconj]. numR.
+  intros Hs. unfold Rules.cval. cbn [cconj]. numR.
   destruct (cj w f) as [f'|] eqn:E; cbn [rbind]; [|reflexivity].
   rewrite (Reqb_false s 0) by assumption.
-  apply val_mul_right. eapply lin_ok_conj; eauto.
+  apply val_mul_right.
 Qed.
 
 (* (f(v .))~(y) = f~(y / v) *)
